@@ -128,3 +128,562 @@ def sites_of(body):
         seen[base] = n + 1
         s.key = "%s#%d" % (base, n)
     return out
+
+
+# ====================================================================== discharge
+
+import json
+import os
+
+from rules import guards as G
+from vlib import fmtargs
+from vlib.dataflow import forward
+
+LEN_FNS = (
+    "std::vec::Vec::len",
+    "core::str::<impl str>::len",
+    "std::string::String::len",
+    "std::collections::BTreeMap::len",
+    "core::slice::<impl [T]>::len",
+    "len",
+)
+TABLE = os.path.join(os.path.dirname(os.path.dirname(os.path.abspath(__file__))), "tables", "panic_discharge.json")
+
+
+def _contains_token(hay, needle):
+    """needle occurs in hay as a whole place (not as the prefix of a longer place)"""
+    i = hay.find(needle)
+    while i >= 0:
+        j = i + len(needle)
+        before_ok = i == 0 or not (hay[i - 1].isalnum() or hay[i - 1] in "_.*")
+        after_ok = j >= len(hay) or not (hay[j].isalnum() or hay[j] in "_.*[ ")
+        if j < len(hay) and hay[j : j + 4] == " as ":
+            after_ok = False
+        if before_ok and after_ok:
+            return True
+        i = hay.find(needle, i + 1)
+    return False
+
+
+def is_len_of(v, r):
+    return v.kind == "call" and v.v in LEN_FNS and v.args and v.args[0].same(r)
+
+
+def operand_type(body, op):
+    pl = mir.op_place(op)
+    if pl is None:
+        c = mir.op_const(op)
+        return c.get("ty") if c else None
+    ty = body.locals[pl["l"]]["ty"]
+    for pr in pl["p"]:
+        if isinstance(pr, dict) and "ty" in pr:
+            ty = pr["ty"]
+        elif pr == "*":
+            ty = ty[1:].lstrip() if ty.startswith("&") else ty
+            if ty.startswith("mut "):
+                ty = ty[4:]
+    return ty
+
+
+class PanicRule:
+    """discharges panic sites reachable from an entry set"""
+
+    def __init__(self, ctx):
+        self.ctx = ctx
+        self.prog = ctx.prog
+        self.table = {}
+        if os.path.exists(TABLE):
+            for e in json.load(open(TABLE))["entries"]:
+                self.table[e["key"]] = e
+        self.used_table = set()
+        self._fmt_cache = {}
+        self._site_cache = {}
+        self._originators = None
+        self._field_writes = None
+
+    # ------------------------------------------------------------------ public
+    def run(self, entries, rep, label="", data_bounded=False, skip_bodies=()):
+        prog = self.prog
+        reach, parent = prog.reachable_from(entries)
+        rep.analysed.setdefault("panic_entries", 0)
+        rep.analysed["panic_entries"] += len(entries)
+        rep.analysed["panic_reachable_bodies" + label] = len(reach)
+        nsites = 0
+        for fid in sorted(reach):
+            body = prog.bodies[fid]
+            if fid in skip_bodies:
+                continue
+            for s in self.sites(body):
+                nsites += 1
+                ok, how = self.discharge(s)
+                if ok:
+                    rep.ok("R-PANIC", s.key, s.where(), how)
+                else:
+                    path = prog.path_to(parent, fid)
+                    rep.bad(
+                        "R-PANIC",
+                        "R-PANIC:" + s.key,
+                        s.where(),
+                        "possible panic (%s: %s) not discharged; reachable from entry %s via %s%s"
+                        % (s.cls, s.what, mir.strip_generics(path[0]), " -> ".join(mir.strip_generics(x).split("::")[-1] for x in path[-4:]), ("; " + how) if how else ""),
+                        {"class": s.cls, "what": s.what, "path": [mir.strip_generics(x) for x in path]},
+                    )
+        return reach, nsites
+
+    def sites(self, body):
+        if body.id not in self._site_cache:
+            self._site_cache[body.id] = sites_of(body)
+        return self._site_cache[body.id]
+
+    # ------------------------------------------------------------------ dispatcher
+    def discharge(self, s):
+        b = s.body
+        t = s.term
+        # table first (its predicate is re-validated on every run)
+        e = self.table.get(s.key)
+        if e is not None:
+            pred = getattr(self, "pred_" + e["predicate"], None)
+            if pred is None:
+                return False, "table entry names unknown predicate %s" % e["predicate"]
+            ok, why = pred(s, e.get("args", {}))
+            self.used_table.add(s.key)
+            if ok:
+                return True, "table:%s (%s)" % (e["predicate"], why)
+            return False, "table predicate %s no longer holds: %s" % (e["predicate"], why)
+        for rule in (self.auto_const_bounds, self.auto_const_divisor, self.auto_index_guarded, self.auto_sep_in_iteration,
+                     self.auto_counter, self.auto_captures_get0, self.auto_fmt):
+            r = rule(s)
+            if r:
+                return True, r
+        return False, ""
+
+    # ------------------------------------------------------------------ automatic rules
+    def auto_const_bounds(self, s):
+        if s.cls != "BoundsCheck":
+            return None
+        d = s.term["detail"]
+        ln = G.describe(s.body, d["len"])
+        ix = G.describe(s.body, d["index"])
+        if ln.kind == "const" and ix.kind == "const" and 0 <= ix.v < ln.v:
+            return "D-auto-1:const index %d < const length %d" % (ix.v, ln.v)
+        gs = G.guards_at(s.body, s.block)
+        for g in gs:
+            if g.op == "Lt" and g.a.same(ix) and g.b.same(ln):
+                return "D-auto-1:index < len guard"
+        return None
+
+    def auto_const_divisor(self, s):
+        if s.cls not in ("DivisionByZero", "RemainderByZero"):
+            return None
+        c = G.describe(s.body, s.term["cond"])
+        if c.kind == "binop" and c.v == "Eq" and all(a.kind == "const" for a in c.args):
+            if c.args[0].v != c.args[1].v and s.term["expected"] is False:
+                return "D-auto:constant non-zero divisor %s" % c.args[0].v
+        return None
+
+    def _mutated_between(self, body, guard_block, site_block, r):
+        """some call between the guard and the site takes &mut of place r"""
+        for bi in G.blocks_between(body, guard_block, site_block):
+            if bi == site_block:
+                continue
+            t = body.term(bi)
+            if t["k"] != "call":
+                continue
+            for a, ty in zip(t["args"], t.get("arg_tys", [])):
+                if ty.startswith("&mut") and G.describe(body, a).same(r):
+                    return True
+        return False
+
+    def auto_index_guarded(self, s):
+        if s.cls not in ("vec-index", "vec-pos", "str-index"):
+            return None
+        b = s.body
+        args = s.term["args"]
+        if len(args) < 2:
+            return None
+        r = G.describe(b, args[0])
+        ix = G.describe(b, args[1])
+        gs = G.guards_at(b, s.block)
+        insert = s.what.endswith("::insert")
+        need = None  # minimal length required, for constant indices
+        if ix.kind == "const":
+            need = ix.v + (0 if insert else 1)
+        elif ix.kind == "agg" and ix.v in ("Range", "RangeFrom", "RangeTo", "RangeInclusive") and s.cls != "str-index":
+            if all(a.kind == "const" for a in ix.args):
+                need = max(a.v for a in ix.args) + (1 if ix.v == "RangeInclusive" else 0)
+                if ix.v == "Range" and ix.args[0].v > ix.args[1].v:
+                    return None
+        for g in gs:
+            if need is not None:
+                if g.op == "Eq" and g.b is not None and g.b.kind == "const" and is_len_of(g.a, r) and g.b.v >= need:
+                    if not self._mutated_between(b, g.block, s.block, r):
+                        return "D-auto-1:len == %d dominates constant index (needs >= %d)" % (g.b.v, need)
+                if g.op in ("Ge", "Gt") and g.b is not None and g.b.kind == "const" and is_len_of(g.a, r):
+                    have = g.b.v + (1 if g.op == "Gt" else 0)
+                    if have >= need and not self._mutated_between(b, g.block, s.block, r):
+                        return "D-auto-1:len >= %d dominates constant index" % have
+            else:
+                if g.op == "Lt" and g.a.same(ix) and is_len_of(g.b, r):
+                    if not self._mutated_between(b, g.block, s.block, r):
+                        return "D-auto-1:index < len() guard on the same collection dominates, no intervening &mut use"
+                if g.op == "Gt" and g.b is not None and g.b.same(ix) and is_len_of(g.a, r):
+                    if not self._mutated_between(b, g.block, s.block, r):
+                        return "D-auto-1:len() > index guard dominates"
+                if insert and g.op == "Le" and g.a.same(ix) and is_len_of(g.b, r):
+                    return "D-auto-1:index <= len() guard dominates insert"
+        return None
+
+    def _closure_parent(self, body):
+        """(parent body, aggregate rvalue creating this closure, block) or None"""
+        if body.rec["kind"] != "Closure":
+            return None
+        par = self.prog.bodies.get(body.rec.get("parent"))
+        if par is None:
+            return None
+        for bi, blk in enumerate(par.blocks):
+            for st in blk["stmts"]:
+                if st["k"] == "assign" and st["rv"]["k"] == "agg" and st["rv"].get("closure") == body.id:
+                    return par, st["rv"], bi, st["lhs"]
+        return None
+
+    def _translate_upvar(self, body, v_repr):
+        """closure place '_1*.K*rest' or '_1.K*rest' -> parent's place repr, else None"""
+        import re as _re
+
+        m = _re.match(r"^_1\*?\.(\d+)\*?(.*)$", v_repr)
+        cp = self._closure_parent(body)
+        if not m or not cp:
+            return None
+        par, agg, _bi, _lhs = cp
+        k = int(m.group(1))
+        if k >= len(agg["ops"]):
+            return None
+        base = G.describe(par, agg["ops"][k])
+        return par, repr(base) + "*" + m.group(2) if not repr(base).endswith("*") or True else None
+
+    def auto_sep_in_iteration(self, s):
+        """`len(R) - 1` evaluated only while an iteration over R has just yielded an element"""
+        if s.cls != "Overflow" or s.term["detail"].get("op") != "Sub":
+            return None
+        b = s.body
+        a = G.describe(b, s.term["detail"]["a"])
+        c = G.describe(b, s.term["detail"]["b"])
+        if not (c.kind == "const" and c.v == 1 and a.kind == "call" and a.v in LEN_FNS and a.args):
+            return None
+        r = repr(a.args[0])
+        for g in G.guards_at(b, s.block):
+            if g.op == "Eq" and g.b is not None and g.b.kind == "const" and g.b.v == 1 and g.a.kind == "discr" and g.a.args:
+                nx = g.a.args[0]
+                if nx.kind == "call" and nx.v.endswith("::next") and _contains_token(repr(nx), r):
+                    return "D-auto-2:len()-1 inside the body of an iteration over the same collection (%s)" % r
+        # closure form: the closure is passed to an iterator adaptor over the same collection
+        tr = self._translate_upvar(b, r)
+        if tr:
+            par, pr = tr
+            cp = self._closure_parent(b)
+            clos_lhs = cp[3]
+            for bi, t in par.calls():
+                nm = mir.strip_generics(mir.callee_name(t) or "")
+                if not nm.startswith("std::iter::Iterator::") and "Iterator>::" not in nm:
+                    continue
+                uses = any(
+                    (mir.op_place(x) or {}).get("l") == clos_lhs["l"] or self._is_ref_of(par, x, clos_lhs["l"]) for x in t["args"][1:]
+                )
+                if uses and _contains_token(repr(G.describe(par, t["args"][0])), pr.replace("**", "*")):
+                    return "D-auto-2:len()-1 inside a closure run per element of the same collection (%s via %s)" % (pr, nm.split("::")[-1])
+            # normalise one level of deref difference
+        return None
+
+    def _is_ref_of(self, body, op, local):
+        pl = mir.op_place(op)
+        if pl is None or pl["p"]:
+            return False
+        sd = body.single_def(pl["l"])
+        if sd and sd[1] != "term" and sd[2]["k"] == "ref":
+            return sd[2]["place"]["l"] == local
+        return False
+
+    def field_writes(self):
+        """(adt, field) -> list of (body, rvalue description) for every assignment to that field, crate-wide;
+        aggregates constructing the ADT count as writes of each field"""
+        if self._field_writes is not None:
+            return self._field_writes
+        fw = {}
+        for body in self.prog.bodies.values():
+            for bi, blk in enumerate(body.blocks):
+                for st in blk["stmts"]:
+                    if st["k"] != "assign":
+                        continue
+                    lhs = st["lhs"]
+                    if lhs["p"]:
+                        last = lhs["p"][-1]
+                        if isinstance(last, dict) and "n" in last and "a" in last:
+                            fw.setdefault((last["a"], last["n"]), []).append((body, st["rv"], bi))
+                    rv = st["rv"]
+                    if rv["k"] == "agg" and rv.get("ak") == "adt":
+                        for fname, o in zip(rv.get("fields", []), rv["ops"]):
+                            fw.setdefault((rv["adt"], fname), []).append((body, {"k": "use", "op": o}, bi))
+                t = blk["term"]
+                if t["k"] == "call" and t["dest"]["p"]:
+                    last = t["dest"]["p"][-1]
+                    if isinstance(last, dict) and "n" in last and "a" in last:
+                        fw.setdefault((last["a"], last["n"]), []).append((body, {"k": "call", "t": t}, bi))
+        self._field_writes = fw
+        return fw
+
+    def _is_plus_one_of(self, body, rv, place_repr):
+        """rv is `move (_t.0)` with _t = AddWithOverflow(copy <place>, const 1), or a small constant"""
+        if rv["k"] != "use":
+            return False
+        c = mir.op_const(rv["op"])
+        if c is not None:
+            i = mir.const_int(c)
+            return i is not None and 0 <= i < (1 << 32)
+        pl = mir.op_place(rv["op"])
+        if pl is None or len(pl["p"]) != 1 or not isinstance(pl["p"][0], dict) or pl["p"][0].get("f") != 0:
+            return False
+        sd = body.single_def(pl["l"])
+        if not sd or sd[1] == "term" or sd[2]["k"] != "binop" or not sd[2]["op"].startswith("Add"):
+            return False
+        x, y = G.describe(body, sd[2]["a"]), G.describe(body, sd[2]["b"])
+        return repr(x) == place_repr and y.kind == "const" and y.v == 1
+
+    def auto_counter(self, s):
+        """x + 1 on a 64-bit unsigned counter that is only ever initialised with a constant and incremented by
+        one: overflow needs 2^64 executed increments (assumption A6)"""
+        if s.cls != "Overflow" or s.term["detail"].get("op") != "Add":
+            return None
+        b = s.body
+        da, db = s.term["detail"]["a"], s.term["detail"]["b"]
+        cb = G.describe(b, db)
+        if not (cb.kind == "const" and cb.v == 1):
+            return None
+        ty = operand_type(b, da)
+        if ty not in ("u64", "usize"):
+            return None
+        pl = mir.op_place(da)
+        if pl is None:
+            return None
+        if not pl["p"]:
+            l = pl["l"]
+            if l <= b.arg_count:
+                return None
+            ds = b.defs().get(l, [])
+            if ds and all(d[1] != "term" and self._is_plus_one_of(b, d[2], "_%d" % l) for d in ds):
+                return "D-auto:counter (local %s: constant init, +1 steps only; A6)" % ty
+            return None
+        last = pl["p"][-1]
+        if isinstance(last, dict) and "a" in last:
+            ws = self.field_writes().get((last["a"], last["n"]), [])
+            ok = bool(ws)
+            for wb, rv, _bi in ws:
+                if rv["k"] == "call":
+                    ok = False
+                    break
+                if rv["k"] == "use":
+                    c = mir.op_const(rv["op"])
+                    if c is not None and mir.const_int(c) is not None and 0 <= mir.const_int(c) < (1 << 32):
+                        continue
+                    p2 = mir.op_place(rv["op"])
+                    if p2 is not None and len(p2["p"]) == 1 and isinstance(p2["p"][0], dict):
+                        sd = wb.single_def(p2["l"])
+                        if sd and sd[1] != "term" and sd[2]["k"] == "binop" and sd[2]["op"].startswith("Add"):
+                            x, y = G.describe(wb, sd[2]["a"]), G.describe(wb, sd[2]["b"])
+                            if y.kind == "const" and y.v == 1 and repr(x).endswith("." + last["n"]):
+                                continue
+                ok = False
+                break
+            if ok:
+                return "D-auto:counter (field %s.%s: %d writes crate-wide, all constant or +1; A6)" % (last["a"].split("::")[-1], last["n"], len(ws))
+        return None
+
+    def auto_captures_get0(self, s):
+        if s.cls != "unwrap":
+            return None
+        v = G.describe(s.body, s.term["args"][0])
+        if v.kind == "call" and v.v == "regex::Captures::get" and len(v.args) == 2 and v.args[1].kind == "const" and v.args[1].v == 0:
+            return "D-auto-3:regex capture group 0 always participates in a match"
+        return None
+
+    # ------------------------------------------------------------------ formatting to a String
+    def fmt_originators(self):
+        """local bodies that can *originate* a fmt::Error (construct one), as opposed to propagating
+        the formatter's own error"""
+        if self._originators is not None:
+            return self._originators
+        out = {}
+        for body in self.prog.bodies.values():
+            if "units_generated" in body.id:
+                continue
+            for bi, blk in enumerate(body.blocks):
+                if blk.get("cleanup"):
+                    continue
+                for st in blk["stmts"]:
+                    if st["k"] != "assign":
+                        continue
+                    rv = st["rv"]
+                    made = False
+                    if rv["k"] == "agg" and rv.get("adt") == "std::fmt::Error":
+                        made = True
+                    for cc in mir._consts_in_rvalue(rv):
+                        if cc.get("ty") == "std::fmt::Error":
+                            made = True
+                    if made:
+                        out.setdefault(body.id, []).append(bi)
+        self._originators = out
+        return out
+
+    def fmt_roots(self, trait, ty):
+        """local fmt bodies that formatting a value of type `ty` through `trait` may run"""
+        import re as _re
+
+        roots = set()
+        tpath = {"Display": "std::fmt::Display", "Debug": "std::fmt::Debug", "LowerHex": "std::fmt::LowerHex"}.get(trait, "std::fmt::Display")
+        for adt in set(_re.findall(r"(?:haystack|c_api|poscontrol)::[A-Za-z0-9_:]+", ty)):
+            for im in self.prog.impls:
+                if im.get("self_adt") == adt and im.get("trait") in (tpath, "std::fmt::Debug" if trait == "Debug" else tpath):
+                    for it in im["items"]:
+                        if it["id"] in self.prog.bodies:
+                            roots.add(it["id"])
+        return roots
+
+    def auto_fmt(self, s):
+        """format!/to_string panic only if a formatting impl returns Err while writing to a String;
+        discharged when no reachable local fmt impl can originate an error"""
+        if s.cls != "fmt-to-string":
+            return None
+        b = s.body
+        t = s.term
+        c = callee_of(t)
+        types = []
+        if "to_string" in s.what:
+            tys = [x for x in c.get("targs", []) if not x.startswith("'")]
+            types.append(("Display", tys[0] if tys else "?"))
+        else:
+            a = fmtargs.arguments_of(b, t["args"][0])
+            if a is None or a[1] is None:
+                return None
+            for tr, ty, _op in a[1]:
+                types.append((tr or "Display", ty))
+        roots = set()
+        generic = []
+        for tr, ty in types:
+            core = ty.replace("&", "").replace("mut ", "").strip()
+            if "::" not in core and core[:1].isupper() and core not in ("String",):
+                generic.append(core)
+            roots |= self.fmt_roots(tr, ty)
+        key = frozenset(roots)
+        if key not in self._fmt_cache:
+            reach, parent = self.prog.reachable_from(sorted(roots))
+            orig = [f for f in reach if f in self.fmt_originators()]
+            self._fmt_cache[key] = (orig, parent)
+        orig, parent = self._fmt_cache[key]
+        bad = []
+        for f in orig:
+            for bi in self.fmt_originators()[f]:
+                ok, why = self.originator_discharged(f, bi)
+                if not ok:
+                    bad.append("%s (%s)" % (mir.strip_generics(f), why))
+        if bad:
+            self._last_fmt_reason = "formatting may fail in: " + "; ".join(sorted(set(bad)))
+            return None
+        how = "D-fmt:no reachable formatting impl can originate fmt::Error (%d local fmt roots)" % len(roots)
+        if generic:
+            how += "; caller-supplied Display %s assumed not to fail (A2)" % ",".join(sorted(set(generic)))
+        return how
+
+    def originator_discharged(self, fid, bi):
+        """Value::fmt constructs fmt::Error only when to_zinc_string() failed; that is impossible when the
+        Zinc writer into a Vec<u8> is infallible (rules/zincwriter.py)"""
+        body = self.prog.bodies[fid]
+        gs = G.guards_at(body, bi)
+        for g in gs:
+            if g.a is not None and g.a.kind == "discr" and g.a.args:
+                v = g.a.args[0]
+                if v.kind == "call" and v.v.endswith("to_zinc_string") and g.op == "Eq" and g.b.v == 1:
+                    from rules import zincwriter
+
+                    ok, why = zincwriter.infallible(self.ctx)
+                    return ok, ("Err arm of to_zinc_string; " + why)
+        return False, "constructs fmt::Error unconditionally or under an unrecognised guard"
+
+
+# ====================================================================== table predicates
+# Every predicate re-validates, on the current MIR, the guard that makes its allow-listed site safe.
+
+import subprocess
+
+RXTOOL = os.path.join(os.path.dirname(os.path.dirname(os.path.abspath(__file__))), "engine", "rxtool", "target", "debug", "rxtool")
+
+
+def rx(*args):
+    out = subprocess.run([RXTOOL] + list(args), capture_output=True, text=True)
+    try:
+        return json.loads(out.stdout)
+    except Exception:
+        return {"ok": False, "error": "rxtool failed: " + out.stderr[:200]}
+
+
+def _pred(fn):
+    setattr(PanicRule, "pred_" + fn.__name__, fn)
+    return fn
+
+
+@_pred
+def regex_literal_valid(self, s, args):
+    v = G.describe(s.body, s.term["args"][0])
+    if v.kind == "call" and v.v == "regex::Regex::new" and v.args and v.args[0].kind == "conststr":
+        r = rx("analyze", v.args[0].v)
+        if r.get("ok"):
+            return True, "regex-syntax parses the literal (%d capture groups)" % len(r.get("captures", []))
+        return False, "literal does not parse: %s" % r.get("error")
+    return False, "receiver is not Regex::new(<literal>)"
+
+
+def _closure_is_plus_one(prog, cid):
+    b = prog.bodies.get(cid)
+    if b is None:
+        return False
+    adds = [t for blk in b.blocks for t in [blk["term"]] if t["k"] == "assert" and t["msg"] == "Overflow"]
+    calls = list(b.calls())
+    return len(adds) == 1 and not calls and adds[0]["detail"].get("op") == "Add" and G.describe(b, adds[0]["detail"]["b"]).v == 1
+
+
+@_pred
+def find_plus_one(self, s, args):
+    """`v + 1` where v is the byte offset returned by str::find: v < len <= isize::MAX"""
+    cp = self._closure_parent(s.body)
+    if not cp:
+        return False, "not a closure"
+    par, agg, bi, lhs = cp
+    for cbi, t in par.calls():
+        nm = mir.strip_generics(mir.callee_name(t) or "")
+        if nm in ("std::option::Option::map_or", "std::option::Option::map") and any((mir.op_place(a) or {}).get("l") == lhs["l"] for a in t["args"]):
+            r = G.describe(par, t["args"][0])
+            if r.kind == "call" and r.v == "core::str::<impl str>::find":
+                return True, "closure maps the Some(offset) of str::find; offset < len <= isize::MAX"
+    return False, "closure is not applied to the result of str::find"
+
+
+@_pred
+def slice_from_find_plus_one(self, s, args):
+    """s[k..] with k = s.find(<ASCII char>).map_or(0, |v| v + 1): k <= len and on a char boundary"""
+    b = s.body
+    recv = G.describe(b, s.term["args"][0])
+    rng = G.describe(b, s.term["args"][1])
+    if not (rng.kind == "agg" and rng.v == "RangeFrom" and rng.args):
+        return False, "not a RangeFrom slice"
+    k = rng.args[0]
+    if not (k.kind == "call" and k.v == "std::option::Option::map_or" and len(k.args) == 3):
+        return False, "start is not map_or(...)"
+    f, dflt, clo = k.args
+    if not (f.kind == "call" and f.v == "core::str::<impl str>::find" and f.args[0].same(recv)):
+        return False, "find() is not on the sliced string"
+    if not (dflt.kind == "const" and dflt.v == 0):
+        return False, "default is not 0"
+    if not (f.args[1].kind == "const" and 0 < f.args[1].v < 0x80):
+        return False, "delimiter is not an ASCII char constant"
+    cids = [c for c in self.prog.closures_of.get(b.id, [])]
+    if not any(_closure_is_plus_one(self.prog, c) for c in cids):
+        return False, "closure is not |v| v + 1"
+    return True, "start = find(ASCII %r)+1 or 0 on the same string" % chr(f.args[1].v)
